@@ -785,8 +785,6 @@ Proof.
   intros base rel. unfold path_params. cbn [app]. rewrite split_slash_app_slash. apply flat_map_app.
 Qed.
 
-Definition param_of (p : bytes) : list bytes := match p with 58 :: name => [name] | _ => [] end.
-
 Lemma path_params_eq : forall r, path_params r = flat_map param_of (split_slash [] r).
 Proof. reflexivity. Qed.
 
@@ -886,4 +884,135 @@ Proof.
   - destruct (compile e) as [a| | |] eqn:Ea; try discriminate.
     destruct (compile_all r) as [b| | |] eqn:Eb; try discriminate. inversion H; subst.
     apply closed_app; [exact (proj2 (compile_ok_inv e a Ea))|now apply IH].
+Qed.
+
+(* ---- default base paths are literal: no ":name" parts, nothing rewritten ---------------------- *)
+Definition no_colon (s : bytes) : bool := forallb (fun c => negb (c =? 58)) s.
+
+Lemma join_cons2 : forall (sep x : bytes) l, l <> [] -> join sep (x :: l) = x ++ sep ++ join sep l.
+Proof. intros sep x [|y l] H; [congruence|reflexivity]. Qed.
+
+Lemma join_split : forall s cur, join [47] (split_slash cur s) = rev cur ++ s.
+Proof.
+  induction s as [|c s IH]; intros cur; cbn [split_slash].
+  - cbn. now rewrite app_nil_r.
+  - destruct (c =? 47) eqn:Ec.
+    + apply N.eqb_eq in Ec. subst c. rewrite join_cons2 by apply split_slash_nonempty.
+      rewrite IH. reflexivity.
+    + rewrite IH. cbn [rev]. now rewrite <- app_assoc.
+Qed.
+
+Lemma split_no_colon : forall s cur, no_colon s = true -> no_colon cur = true ->
+  Forall (fun p => no_colon p = true) (split_slash cur s).
+Proof.
+  induction s as [|c s IH]; intros cur Hs Hc; cbn [split_slash].
+  - constructor; [|constructor]. unfold no_colon in *. rewrite forallb_forall in *.
+    intros x Hx. apply Hc. now apply in_rev.
+  - cbn [no_colon forallb] in Hs. apply andb_true_iff in Hs. destruct Hs as [Hc0 Hs].
+    destruct (c =? 47).
+    + constructor; [|apply IH; [assumption|reflexivity]].
+      unfold no_colon in *. rewrite forallb_forall in *. intros x Hx. apply Hc. now apply in_rev.
+    + apply IH; [assumption|]. cbn [no_colon forallb]. now rewrite Hc0.
+Qed.
+
+Lemma conv_part_no_colon : forall p, no_colon p = true -> conv_part p = p /\ param_of p = [].
+Proof.
+  intros [|c p] H; [split; reflexivity|]. cbn [no_colon forallb] in H.
+  apply andb_true_iff in H. destruct H as [Hc _]. apply negb_true_iff in Hc.
+  unfold conv_part, param_of. rewrite Hc. split; reflexivity.
+Qed.
+
+Lemma parts_no_colon : forall l, Forall (fun p => no_colon p = true) l ->
+  map conv_part l = l /\ flat_map param_of l = [].
+Proof.
+  induction l as [|p l IH]; intros HF; [split; reflexivity|].
+  inversion HF as [|? ? Hp Hl]; subst. destruct (IH Hl) as [I1 I2].
+  destruct (conv_part_no_colon p Hp) as [C1 C2].
+  cbn [map flat_map]. rewrite I1, I2, C1, C2. split; reflexivity.
+Qed.
+
+Theorem no_colon_path : forall s, no_colon s = true -> http_rule_path s = s /\ path_params s = [].
+Proof.
+  intros s H. destruct (parts_no_colon _ (split_no_colon s [] H eq_refl)) as [E1 E2].
+  split.
+  - unfold http_rule_path. rewrite E1. apply join_split.
+  - exact E2.
+Qed.
+
+Lemma plain_not_colon : forall c, plain c = true -> negb (c =? 58) = true /\ negb (c =? 47) = true.
+Proof. intros c. unfold plain, is_cap, is_low, is_num. lia. Qed.
+
+Lemma ident_no_colon_slash : forall s, ident s = true -> no_colon s = true /\ no_slash s = true.
+Proof.
+  induction s as [|c s IH]; intros H; [split; reflexivity|].
+  cbn [ident forallb] in H. apply andb_true_iff in H. destruct H as [Hc Hs].
+  destruct (IH Hs) as [I1 I2]. destruct (plain_not_colon c Hc) as [P1 P2].
+  cbn [no_colon no_slash forallb]. rewrite P1, P2. split; assumption.
+Qed.
+
+(* an entity with an identifier name, a package without ':' and no baseUrlPath override has the
+   literal base /<pkg with slashes>/<snake name>/q *)
+Theorem default_query_base : forall e,
+  e_base_url e = [] -> ident (e_name e) = true -> no_colon (e_pkg e) = true ->
+  http_rule_path (query_base e) = query_base e /\ path_params (query_base e) = [].
+Proof.
+  intros e Hb Hi Hp. apply no_colon_path. unfold query_base, base_url. rewrite Hb.
+  unfold no_colon. rewrite !forallb_app. cbn [forallb].
+  assert (H1 : forallb (fun c => negb (c =? 58)) (map (fun c => if c =? 46 then 47 else c) (e_pkg e)) = true).
+  { unfold no_colon in Hp. rewrite forallb_forall in *. intros x Hx. apply in_map_iff in Hx.
+    destruct Hx as [c [<- Hc]]. specialize (Hp c Hc). destruct (c =? 46); [reflexivity|exact Hp]. }
+  rewrite H1. pose proof (ident_no_colon_slash _ (to_snake_ident _ Hi)) as [H2 _].
+  unfold snake_name. unfold no_colon in H2. rewrite H2. reflexivity.
+Qed.
+
+Lemma slash_join : forall l : list bytes, l <> [] ->
+  [47] ++ join [47] l = flat_map (fun x => 47 :: x) l.
+Proof.
+  induction l as [|x l IH]; intros H; [congruence|]. destruct l as [|y l'].
+  - cbn. now rewrite app_nil_r.
+  - rewrite join_cons2 by discriminate.
+    change (flat_map (fun x0 => 47 :: x0) (x :: y :: l'))
+      with ((47 :: x) ++ flat_map (fun x0 => 47 :: x0) (y :: l')).
+    rewrite <- IH by discriminate. cbn [app]. reflexivity.
+Qed.
+
+Lemma flat_map_brace : forall ks,
+  flat_map (fun u => 47 :: brace u) ks = flat_map (fun x => 47 :: x) (map brace ks).
+Proof. induction ks as [|u ks IH]; [reflexivity|]. cbn [flat_map map]. now rewrite IH. Qed.
+
+(* the documented paths for ordinary declarations (identifier names, no baseUrlPath override):
+   Get    = /<pkg>/<snake name>/q/{key}/{key}...
+   Events = /<pkg>/<snake name>/q/{key}/{key}.../events
+   over the primary and shard keys in declaration order, all of them request fields *)
+Theorem default_paths : forall e,
+  e_base_url e = [] -> ident (e_name e) = true -> no_colon (e_pkg e) = true ->
+  Forall (fun k => ident (uf_name (k_def k)) = true) (e_keys e) ->
+  nth 0 (query_paths e) [] = query_base e ++ flat_map (fun u => 47 :: brace u) (get_keys e)
+  /\ nth 2 (query_paths e) [] =
+       query_base e ++ flat_map (fun u => 47 :: brace u) (get_keys e) ++ bs "/events"
+  /\ query_params_ok e = true.
+Proof.
+  intros e Hb Hi Hp Hk.
+  destruct (default_query_base e Hb Hi Hp) as [B1 B2].
+  assert (Hk' : Forall (fun k => no_slash (uf_name (k_def k)) = true) (e_keys e)).
+  { eapply Forall_impl; [|exact Hk]. intros k H. exact (proj2 (ident_no_colon_slash _ H)). }
+  destruct (get_events_paths e Hk') as [P0 P2]. rewrite P0, P2, B1.
+  split; [|split; [|now apply query_params_always_ok]].
+  - destruct (get_keys e) as [|u ks]; [now rewrite app_nil_r|].
+    rewrite flat_map_brace, <- slash_join by discriminate. reflexivity.
+  - f_equal. rewrite slash_join by (destruct (map brace (get_keys e)); discriminate).
+    rewrite flat_map_app, flat_map_brace. reflexivity.
+Qed.
+
+(* component names are proto identifiers *)
+Theorem component_names_alnum : forall e suffix, forallb alnum (component_name e suffix) = true.
+Proof.
+  intros e suffix. unfold component_name. rewrite forallb_app, !to_camel_alnum. reflexivity.
+Qed.
+
+Theorem camel_name_starts_cap : forall e c r,
+  e_name e = c :: r -> is_letter c = true -> ident (c :: r) = true ->
+  exists c' t, camel_name e = c' :: t /\ is_cap c' = true.
+Proof.
+  intros e c r He Hc Hi. unfold camel_name. rewrite He. now apply to_camel_starts_cap.
 Qed.
